@@ -87,7 +87,7 @@ def discover():
                 elif line.strip().startswith("#[kani::"):
                     macros[in_macro].append(line.strip())
                 continue
-            mi = re.match(r"^\s*(\w+)!\((\w+),\s*(\w+)", line)
+            mi = re.match(r"^\s*(\w+)!\((\w+),\s*(\w+)", line)  # name!(harness, canary_or_first_arg, ...)
             if mi and mi.group(1) in macros and meta.get("harness"):
                 mattrs = macros[mi.group(1)]
                 half = len(mattrs) // 2 if mi.group(3).endswith("_canary") else len(mattrs)
@@ -220,7 +220,7 @@ def parse_log(text):
     for i in range(1, len(parts), 2):
         full, body = parts[i], parts[i + 1]
         r = {"full": full, "checks": [], "covers": []}
-        for m in re.finditer(r"^Check \d+: (\S+)\n\s+- Status: (\w+)\n\s+- Description: \"(.*)\"\n(?:\s+- Location: (.*)\n)?", body, flags=re.M):
+        for m in re.finditer(r"^Check \d+: (.+)\n\s+- Status: (\w+)\n\s+- Description: \"((?s:.*?))\"\n(?:\s+- Location: (.*)\n)?", body, flags=re.M):
             name, status, desc, loc = m.groups()
             entry = {"name": name, "status": status, "desc": desc, "loc": (loc or "").strip()}
             if ".cover." in name:
@@ -246,6 +246,8 @@ def parse_log(text):
         r["decision_s"] = total(r"Runtime decision procedure: ([\d.e+-]+)s")
         r["solver_calls"] = len(re.findall(r"Runtime Solver: ", body))
         r["verification_s"] = num(r"Verification Time: ([\d.e+-]+)s")
+        m = re.search(r"^ \*\* (\d+) of (\d+) failed", body, flags=re.M)
+        r["summary_failed"], r["summary_total"] = (int(m.group(1)), int(m.group(2))) if m else (None, None)
         m = re.search(r"^VERIFICATION:- (\w+)", body, flags=re.M)
         r["verdict"] = m.group(1) if m else "NONE"
         r["cbmc_error"] = bool(re.search(r"Status: ERROR|CBMC failed|std::bad_alloc|Out of memory|killed by signal", body))
@@ -300,6 +302,10 @@ def classify(h, r):
         return "inconclusive", "no result (build failure, timeout or crash before this harness)"
     if r["cbmc_error"]:
         return "inconclusive", "CBMC error / out of memory"
+    nfail = sum(1 for c in r["checks"] if c["status"] == "FAILURE")
+    if r.get("summary_failed") is not None and (nfail != r["summary_failed"] or len(r["checks"]) != r["summary_total"]):
+        return "inconclusive", "log parse mismatch: parsed %d/%d checks failing, Kani's summary says %d/%d" % (
+            nfail, len(r["checks"]), r["summary_failed"], r["summary_total"])
     bad = failing_checks(r, h.get("flags", ()))
     unwind = [c for c in bad if "unwinding assertion" in c["desc"]]
     if unwind:
@@ -434,9 +440,12 @@ def run_check(prop, tier, only=None, jobs=None, seed=0):
         note, rc, logpath, build = notes[h["name"]]
         if r is None and note:
             detail = note
-        if r is None and "error" in (build or ""):
-            m = re.search(r"^error.*$", build, flags=re.M)
-            detail = "build/compile failure: %s" % (m.group(0) if m else "see log")
+        if r is None:
+            m = re.search(r"^error.*$", build or "", flags=re.M)
+            if m:
+                detail = "build/compile failure: %s" % m.group(0)
+            elif not note:
+                detail = "no result in the log (an earlier harness of the same batch ran out of time or memory)"
         q = {"harness": h["full"], "role": "main", "status": status, "detail": detail, "log": logpath}
         if r:
             q.update({k: r[k] for k in ("symex_s", "steps", "vccs", "vccs_remaining", "variables", "clauses", "solver_s",
